@@ -1114,15 +1114,16 @@ impl<W: std::io::Write> FlacStreamWriter<W> {
 
         self.options.use_rice2 = u32::from(bits_per_sample) > 16;
 
+        // block size must be valid (an empty frame can't be filled)
+        let block_size: crate::stream::BlockSize<u16> = crate::stream::BlockSize::try_from(
+            u16::try_from(samples.len() / usize::from(channels))
+                .map_err(|_| Error::InvalidBlockSize)?,
+        )
+        .map_err(|_| Error::InvalidBlockSize)?;
+
         self.frame
             .resize(bits_per_sample.into(), channels.into(), 0);
         self.frame.fill_from_samples(samples);
-
-        // block size must be valid
-        let block_size: crate::stream::BlockSize<u16> = crate::stream::BlockSize::try_from(
-            u16::try_from(self.frame.pcm_frames()).map_err(|_| Error::InvalidBlockSize)?,
-        )
-        .map_err(|_| Error::InvalidBlockSize)?;
 
         // sample rate must be valid for subset streams
         let sample_rate: SampleRate<u32> = sample_rate.try_into().and_then(|rate| match rate {
